@@ -25,7 +25,7 @@ from ..seams import cbc
 
 PROPERTY = "C02"
 LEVEL = "fault_enumeration"
-QUICK_RUNS = 192
+QUICK_RUNS = 288
 THOROUGH_BUDGET_S = 1500
 THOROUGH_BATCH = 640
 CROSS_RUNS_QUICK = 24
@@ -111,12 +111,25 @@ def gen_case(seed, run, tier):
     rf = core.stream(seed, "c02/faults", run)
     variant = rs.choice(["single", "single", "single", "multi", "multi", "wrong_side", "wrong_side", "missing_component",
                          "superfluous", "full_rank", "dup_spectator", "dup_shared", "fractional", "electron"])
+    if rs.random() < 0.05:
+        variant = "big"  # more than ten species: two-digit variable names in the integer program
+    elif rs.random() < 0.06:
+        variant = "one_sided"  # a component present on one side only, in several species of an under-determined reaction
     for _attempt in range(200):
-        n = rw.randint(2, 6) if variant != "multi" else rw.randint(4, 6)
+        n = rw.randint(2, 6) if variant not in ("multi", "one_sided") else rw.randint(4, 6)
+        if variant == "big":
+            n = rw.randint(11, 13)
         nr = rw.randint(1, n - 1)
         x = _coprime_vector(rw, n)
-        nel = rw.randint(1, 4) if variant != "multi" else rw.randint(1, 2)
-        if rw.random() < 0.5:
+        if variant == "big":
+            x = [min(v, 3) for v in x]
+            if reduce(gcd, x) != 1:
+                x[0] = 1
+        nel = rw.randint(1, 4) if variant not in ("multi", "one_sided") else rw.randint(1, 2)
+        if variant == "big":
+            nr = rw.randint(4, n - 4)
+            nel = rw.randint(n - 4, n - 2)
+        if rw.random() < 0.5 and variant != "big":
             common = [1, 8, 6, 7, 11, 16, 17, 20, 26, 29]
             elements = sorted(set([1, 8][: max(1, min(2, nel))] + rw.sample(common, max(0, nel - 2))))
         else:
@@ -164,6 +177,19 @@ def gen_case(seed, run, tier):
             k = rw.choice(prod)
             prod.remove(k)
             reac.append(k)
+    elif variant == "one_sided":
+        free = [z for z in sorted(Z2SYM) if z not in elements]
+        z = rw.choice(free)
+        side = species[:nr] if (nr >= 2 and rw.random() < 0.5) or len(species) - nr < 2 else species[nr:]
+        chosen = rw.sample(side, min(len(side), rw.randint(2, 3))) if len(side) >= 2 else side
+        for sp in chosen:
+            sp["comp"][str(z)] = rw.randint(1, 2)
+            if formula_mode:
+                tree = C.tree_for({int(k): v for k, v in sp["comp"].items()}, rw, Z2SYM)
+                old = sp["key"]
+                sp["key"] = C.render(tree)
+                reac = [sp["key"] if k == old else k for k in reac]
+                prod = [sp["key"] if k == old else k for k in prod]
     elif variant == "missing_component":
         free = [z for z in sorted(Z2SYM) if z not in elements]
         z = rw.choice(free)
@@ -242,15 +268,25 @@ def gen_case(seed, run, tier):
     if formula_mode and rs.random() < 0.3:
         subs = rs.choice(["string", "explicit"])
     calls = []
-    if dup:
+    if variant == "big":
+        formula_mode = formula_mode  # keys as generated
+        calls.append({"mode": "none", "dup": False})
+        calls.append({"mode": "false", "dup": False})
+    elif dup:
         calls.append({"mode": "none", "dup": True})
         calls.append({"mode": "none", "dup": False})
     else:
         for m in ("true", "false", "none"):
             calls.append({"mode": m, "dup": False})
     enum = {"torn": 24 if run % 10 else "all", "pairs": 0 if tier == "quick" else 6, "fseed": rf.randrange(1 << 30)}
-    return {"property": PROPERTY, "variant": variant, "species": species, "reac": reac, "prod": prod,
+    if variant == "big":
+        enum["torn"] = 2
+        enum["minimal"] = True
+    case = {"property": PROPERTY, "variant": variant, "species": species, "reac": reac, "prod": prod,
             "container": container, "subs": subs, "calls": calls, "enumerate": enum}
+    if variant == "big":
+        case["witness"] = {sp["key"]: xi for sp, xi in zip(species, x)}
+    return case
 
 
 # ----------------------------------------------------------------------------- ground truth
@@ -269,7 +305,14 @@ def truth_for(case, reac, prod):
     A = [[(-1 if k in reac else 1) * comp[k].get(z, Fraction(0)) for k in keys] for z in cks]
     basis = NS.nullspace(A, len(keys))
     d = len(basis)
-    t = {"keys": keys, "A": A, "d": d, "comp": comp, "cks": cks}
+    one_sided = False
+    for z in cks:
+        rv = [comp[k].get(z, 0) for k in reac if comp[k].get(z, 0) != 0]
+        pv = [comp[k].get(z, 0) for k in prod if comp[k].get(z, 0) != 0]
+        for mine, other in ((rv, pv), (pv, rv)):
+            if not mine and other and not (any(v > 0 for v in other) and any(v < 0 for v in other)):
+                one_sided = True
+    t = {"keys": keys, "A": A, "d": d, "comp": comp, "cks": cks, "one_sided": one_sided, "basis": basis}
     if d == 0:
         t.update(feasible=False, klass="trivial_only")
     elif d == 1:
@@ -284,7 +327,13 @@ def truth_for(case, reac, prod):
         else:
             t.update(feasible=False, klass="mixed_sign")
     else:
-        feas = NS.strictly_positive_feasible(basis)
+        wit = case.get("witness")
+        if wit and all(k in wit for k in keys) and all(wit[k] > 0 for k in keys) and NS.is_solution(A, [wit[k] for k in keys]):
+            feas = True  # a positive solution is known by construction: no need for the (exponential) elimination
+        elif d > 7:
+            raise core.HarnessError("cone of dimension %d without a witness: not classified" % d)
+        else:
+            feas = NS.strictly_positive_feasible(basis)
         t.update(feasible=feas, klass="cone_d%d" % min(d, 4) if feas else "cone_infeasible")
     return t
 
@@ -417,7 +466,7 @@ def judge(case, call, rec, faulted):
             return out
         eff_reac, eff_prod = reac, prod
     t = truth_for(case, eff_reac, eff_prod)
-    sig = dict(sigbase, truth=t["klass"])
+    sig = dict(sigbase, truth=t["klass"], one_sided_component=t["one_sided"])
     coefs = [rr[k] for k in eff_reac] + [pp[k] for k in eff_prod]
     numeric = all(_is_number(c) for c in coefs)
     if mode in ("false", "none") and not numeric:
@@ -509,6 +558,44 @@ def _is_int(c):
 # ----------------------------------------------------------------------------- fault enumeration
 
 
+def _ilp_order(case):
+    """Order of the ILP variables as chempy builds them (sets are sorted, sequences kept)."""
+    if case["container"] == "set":
+        return sorted(case["reac"]) + sorted(case["prod"])
+    return list(case["reac"]) + list(case["prod"])
+
+
+def sol_set_plans(case, call):
+    """Vectors a solver may hand back that satisfy every equality of the balancing program but not its bounds
+    or its optimality (from the exact null space): the way an infeasible or prematurely stopped integer program ends."""
+    if call.get("dup") or set(case["reac"]) & set(case["prod"]):
+        return []
+    t = truth_for(case, case["reac"], case["prod"])
+    if t["d"] == 0:
+        vecs = [([0] * len(t["keys"]), "Infeasible - objective value 0.00000000")]
+    else:
+        prim = [NS.primitive(b) for b in t["basis"]]
+        vecs = []
+        for v in prim[:3]:
+            head = "Optimal - objective value 0.00000000" if all(x > 0 for x in v) else "Infeasible - objective value 0.00000000"
+            vecs.append((v, head))
+            vecs.append(([-x for x in v], "Infeasible - objective value 0.00000000"))
+            if all(x > 0 for x in v):
+                vecs.append(([2 * x for x in v], "Optimal - objective value 0.00000000"))
+        if len(prim) >= 2:
+            vecs.append(([a + b for a, b in zip(prim[0], prim[1])], "Infeasible - objective value 0.00000000"))
+            vecs.append(([a - b for a, b in zip(prim[0], prim[1])], "Infeasible - objective value 0.00000000"))
+        vecs.append(([0] * len(t["keys"]), "Infeasible - objective value 0.00000000"))
+    order = _ilp_order(case)
+    pos = {k: i for i, k in enumerate(t["keys"])}
+    out = []
+    for v, head in vecs:
+        if max(abs(x) for x in v) > 10 ** 6:
+            continue
+        out.append([{"inv": 0, "kind": "sol_set", "values": [v[pos[k]] for k in order], "text": head}])
+    return out
+
+
 def enumerate_faults(base_rec, enum, tier_pairs=0):
     """All single faults for every solver invocation the fault-free call made."""
     rng = core.stream(enum.get("fseed", 0), "c02/enum", 0)
@@ -519,8 +606,15 @@ def enumerate_faults(base_rec, enum, tier_pairs=0):
         nv = inv.get("nvars", 1)
         single = ["exe_missing", "exit_before", "killed_before", "exit_after", "killed_after", "sol_missing", "sol_empty",
                   "sol_stale", "relax_lp", "stop_nodes0", "mps_eio", "tmpdir_gone"]
+        if enum.get("minimal"):
+            single = ["killed_after", "sol_stale"]
         for k in single:
             plans.append([{"inv": i, "kind": k}])
+        if enum.get("minimal"):
+            v = rng.randrange(nv)
+            plans.append([{"inv": i, "kind": "sol_perturb", "var": v, "d": 1}])
+            plans.append([{"inv": i, "kind": "sol_drop_row", "var": (v + 1) % nv}])
+            continue
         if size:
             if enum.get("torn") == "all":
                 offs = list(range(1, size))
@@ -597,7 +691,7 @@ def execute(case):
         faulted = bool(faults)
         vs = judge(case, call, rec, faulted)
         for v in vs:
-            explicit = {k: case[k] for k in ("property", "variant", "species", "reac", "prod", "container", "subs")}
+            explicit = {k: case[k] for k in ("property", "variant", "species", "reac", "prod", "container", "subs", "witness") if k in case}
             explicit["calls"] = [dict(call, faults=[dict(f) for f in faults])]
             explicit["enumerate"] = None
             v["case"] = explicit
@@ -627,6 +721,18 @@ def execute(case):
                 bump("probe:torn_solution_file")
         return rec
 
+    def decoy(call):
+        """Same keys, compositions rotated among the species (explicit substances mapping)."""
+        sp = case["species"]
+        if len(sp) < 2:
+            return
+        rot = [dict(s, comp=sp[(i + 1) % len(sp)]["comp"]) for i, s in enumerate(sp)]
+        dcase = dict(case, species=rot, subs="explicit")
+        rec = do_call(dcase, dict(call, faults=[]), [])
+        hist.append(dict(_hist_rec(rec), decoy=True))
+        bump("decoy_calls")
+        bump("decoy:" + rec["outcome"].split(":")[0])
+
     for call in case["calls"]:
         faults0 = call.get("faults") or []
         rec = one(call, faults0)
@@ -648,8 +754,30 @@ def execute(case):
                 outcome.append([call["mode"], r["outcome"], r.get("result")])
         enum = case.get("enumerate")
         if enum and not faults0 and rec["n_inv"] > 0:
-            for plan in enumerate_faults(rec, enum, enum.get("pairs", 0)):
+            extra = sol_set_plans(case, call)
+            for plan in enumerate_faults(rec, enum, enum.get("pairs", 0)) + (extra[:2] if enum.get("minimal") else extra):
                 one(call, plan)
+        if (enum and not faults0 and not enum.get("minimal")) or call.get("after"):
+            # history independence: a decoy call with the same keys but other compositions (usually refused), then the
+            # same call again - the answer must not depend on what this process balanced or failed to balance before
+            first = _hist_rec(rec)
+            if call.get("after") != "none":
+                decoy(call)
+            again = one(dict(call, after=None), [])
+            second = _hist_rec(again)
+            same = first["outcome"] == second["outcome"]
+            if same and "result" in first:
+                t = truth_for(case, case["reac"], case["prod"]) if not call.get("dup") and not (set(case["reac"]) & set(case["prod"])) else None
+                if t is not None and t["d"] == 1:
+                    same = first["result"] == second.get("result")
+            if not same:
+                explicit = {k: case[k] for k in ("property", "variant", "species", "reac", "prod", "container", "subs", "witness") if k in case}
+                explicit["calls"] = [dict(call, faults=[], after="decoy")]
+                explicit["enumerate"] = None
+                v = core.violation("history_dependence", "the same call gave %s first and %s after a decoy call / injected faults" % (
+                    first["outcome"], second["outcome"]), {"mode": call["mode"], "dup": bool(call.get("dup"))})
+                v["case"] = explicit
+                viols.append(v)
     return {"history": hist, "outcome": outcome, "violations": _dedup(viols), "stats": stats, "states": sorted(states, key=repr)}
 
 
